@@ -13,6 +13,7 @@ import (
 	"strings"
 	"time"
 
+	simplefixgo "github.com/b2broker/simplefix-go"
 	"github.com/b2broker/simplefix-go/fix"
 	fixgen "github.com/b2broker/simplefix-go/tests/fix44"
 	"vlib"
@@ -160,7 +161,18 @@ func c10Run(c c10Case) (string, string) {
 	if strings.Contains(c.Pattern, "p") {
 		hb = 1 // periodic heartbeats enter the outbound history (virtual time passes)
 	}
-	w := newWorld(wcfg{Role: c.Role, Buf: 20, HbMin: 1, HbMax: 30, HbInt: hb})
+	wc := wcfg{Role: c.Role, Buf: 20, HbMin: 1, HbMax: 30, HbInt: hb}
+	if strings.Contains(c.Pattern, "r") {
+		// an application filter registered before the session exists: it runs in front of the session's
+		// store-before-send hook and refuses the messages marked for it, which have taken a number by then
+		wc.PreSession = func(h *simplefixgo.DefaultHandler) {
+			h.HandleOutgoing(simplefixgo.AllMsgTypes, func(m simplefixgo.SendingMessage) bool {
+				r, ok := m.(*fixgen.MarketDataRequest)
+				return !ok || !strings.HasPrefix(r.MDReqID(), "refuse-")
+			})
+		}
+	}
+	w := newWorld(wc)
 	if c.Gap != nil {
 		_ = w.st.SetSeqNum(fix.StorageID{Side: fix.Incoming}, c.Gap[0])
 		w.take()
@@ -183,6 +195,9 @@ func c10Run(c c10Case) (string, string) {
 		case 'a':
 			_ = w.s.Send(fixgen.NewMarketDataRequest().SetMDReqID("req-" + strconv.Itoa(i)))
 			vsched.Settle()
+		case 'r':
+			_ = w.s.Send(fixgen.NewMarketDataRequest().SetMDReqID("refuse-" + strconv.Itoa(i)))
+			vsched.Settle()
 		case 'p':
 			// one heartbeat period of silence: the session's own timer emits a Heartbeat (and, after
 			// two periods without inbound traffic, a TestRequest) - both are part of the sent history
@@ -193,14 +208,26 @@ func c10Run(c c10Case) (string, string) {
 	if !w.s.IsLogged() && countType(w.outs, "1") == 0 {
 		return "setup:not-logged", "" // (IsLogged is false by design while a TestRequest of the session is outstanding)
 	}
-	sent := append([]outMsg{}, w.outs...) // first transmissions, numbered 1..n
-	n := len(sent)
+	first := append([]outMsg{}, w.outs...) // first transmissions, numbered 1..n (a refused message leaves its number unused)
+	n := len(first) + strings.Count(c.Pattern, "r")
 	if w.ctxDone {
 		return "", "" // silent-peer rule ended the session during the history: nothing to resend to
 	}
-	for i, o := range sent {
-		if seqOf(o.Msg) != i+1 {
-			return "setup:numbering", fmt.Sprintf("message %d carries %d", i+1, seqOf(o.Msg))
+	sent := make([]outMsg, n)
+	have := make([]bool, n+1)
+	for _, o := range first {
+		k := seqOf(o.Msg)
+		if k < 1 || k > n || have[k] {
+			return "setup:numbering", fmt.Sprintf("first transmissions carry %d twice or outside 1..%d", k, n)
+		}
+		sent[k-1], have[k] = o, true
+	}
+	if !strings.ContainsAny(c.Pattern, "pg") {
+		// number 1 is the logon message, letter i of the pattern takes number i+2; a refused message leaves its number unused
+		for i := range c.Pattern {
+			if have[i+2] != (c.Pattern[i] != 'r') {
+				return "setup:numbering", fmt.Sprintf("pattern %q: number %d used=%v", c.Pattern, i+2, have[i+2])
+			}
 		}
 	}
 	w.take()
@@ -213,6 +240,9 @@ func c10Run(c c10Case) (string, string) {
 			hi = n
 		}
 		exact := b >= 1 && b <= hi && hi <= n
+		for k := b; exact && k <= hi; k++ {
+			exact = have[k] // a range that covers a number nothing was sent under: only the sub-sequence rule applies
+		}
 		// whatever is sent must be a sub-sequence of the recorded range b..hi, byte-identical, ascending
 		last := 0
 		for _, o := range outs {
@@ -220,7 +250,7 @@ func c10Run(c c10Case) (string, string) {
 			if mtype(o.Msg) == "3" && q > n {
 				continue // a fresh Reject (own new number) is not a retransmission
 			}
-			if q < 1 || q > n || !bytes.Equal(sent[q-1].Msg, o.Msg) {
+			if q < 1 || q > n || !have[q] || !bytes.Equal(sent[q-1].Msg, o.Msg) {
 				return "resend:not-a-recorded-message", fmt.Sprintf("n=%d (b,e)=(%d,%d) got %s", n, b, e, show(o.Msg))
 			}
 			if q < b || q > hi {
@@ -349,6 +379,15 @@ func runC10(R *vlib.Out) {
 		for _, p := range append([]string{}, pats...) {
 			if len(p) < maxN {
 				pats = append(pats, "g"+p)
+			}
+		}
+		// one refused application message at every position of every short history of replies and application
+		// messages: its number stays unused, every other message is found under the number it was sent with
+		for _, p := range append([]string{}, pats...) {
+			if len(p) < maxN && !strings.ContainsAny(p, "pg") {
+				for k := 0; k <= len(p); k++ {
+					pats = append(pats, p[:k]+"r"+p[k:])
+				}
 			}
 		}
 		for _, p := range pats {
